@@ -6,8 +6,8 @@ import (
 	"fmt"
 	"os"
 	"os/exec"
-	"regexp"
 	"path/filepath"
+	"regexp"
 	"runtime/pprof"
 	"sort"
 	"strconv"
@@ -20,16 +20,16 @@ import (
 )
 
 type PropCfg struct {
-	ID        string   `json:"id"`
-	Packages  []string `json:"packages"`
-	Sweep     []string `json:"sweep"`      // functions checked for implicit safety obligations (entry points)
-	Functions []string `json:"functions"`  // extra functions verified against their contracts for this property
-	Assume    []string `json:"assumptions"`
-	Text      string   `json:"text"`
-	Inline    []string `json:"inline"` // callees inlined despite having a contract
-	Modular   []string `json:"modular"` // callees replaced by 'havoc everything reachable + contract' (cuts path explosion)
-	MaxPaths  int      `json:"max_paths"`
-	Bounded   []string `json:"bounded"`
+	ID           string        `json:"id"`
+	Packages     []string      `json:"packages"`
+	Sweep        []string      `json:"sweep"`     // functions checked for implicit safety obligations (entry points)
+	Functions    []string      `json:"functions"` // extra functions verified against their contracts for this property
+	Assume       []string      `json:"assumptions"`
+	Text         string        `json:"text"`
+	Inline       []string      `json:"inline"`  // callees inlined despite having a contract
+	Modular      []string      `json:"modular"` // callees replaced by 'havoc everything reachable + contract' (cuts path explosion)
+	MaxPaths     int           `json:"max_paths"`
+	Bounded      []string      `json:"bounded"`
 	BoundedTests []BoundedTest `json:"bounded_tests"`
 }
 
@@ -709,6 +709,7 @@ func writeEvidence(id, tier string, seed int, pc *PropCfg, ld *Loaded, ex *Exec,
 		"path_cap_hit":              ex.pathCap,
 		"unsupported_constructs":    unsup,
 		"untriggered_clauses":       untriggered(ld, ex, id),
+		"retried_after_timeout":     Retried,
 		"bounded":                   boundedResults,
 		"dropped_by_translation":    []string{"goroutines (go statements are events; no interleaving)", "channel contents (receives yield arbitrary values)", "termination (partial correctness only)", "map iteration order, time, randomness (nondeterministic values)", "append aliasing (append always allocates a fresh backing array)"},
 		"contract_files":            relFiles(ld.Specs.Files),
@@ -761,7 +762,11 @@ func runBounded(repo string, bt BoundedTest, id string) map[string]interface{} {
 	res["cases"] = total
 	res["mismatches"] = mism
 	if err != nil || len(runs) == 0 || mism > 0 {
-		res["violated"] = mism > 0 || (err != nil && strings.Contains(string(out), "--- FAIL")) || strings.Contains(string(out), "panic:")
+		timedOut := strings.Contains(string(out), "test timed out")
+		res["violated"] = mism > 0 || (!timedOut && ((err != nil && strings.Contains(string(out), "--- FAIL")) || strings.Contains(string(out), "panic:")))
+		if timedOut {
+			res["broken"] = "bounded test timed out (machine load?): undecided, not a violation"
+		}
 		res["output"] = firstLines(string(out), 40)
 		if len(runs) == 0 && !res["violated"].(bool) {
 			res["broken"] = "bounded test produced no result line (does not compile against this tree?)"
